@@ -144,17 +144,42 @@ def run(F, rep):
     if rep.floor("C04-D3", 1 if cl else 0, 1, "classify_raw_segments_at_barrier"):
         ex = Exprs(cl)
         g = cfg_of(cl)
-        sorts = [(bi, t) for bi, t in cl.calls() if not t.get("indirect") and SORT.search(t["callee"])]
-        drains = [(bi, t) for bi, t in cl.calls() if not t.get("indirect") and t["callee"].endswith("Vec::<T, A>::drain")]
-        appends = [(bi, t) for bi, t in cl.calls() if not t.get("indirect") and t["callee"].endswith("Vec::<T, A>::append")]
+        # What is gathered from the per-worker buffers arrives in schedule order.  Before anything is classified the
+        # whole collection must pass through a sort, outside any loop, whose order is total on the (sample, contig)
+        # key: a plain sort() on the elements, or a comparator that compares a whole tuple / chains comparisons.
+        RAW = "RawBufferedSegment"
+        loops = g.loops()
+        depth = lambda b: sum(1 for h, body in loops if b in body)
+        gathers = [bi for bi, t in cl.calls() if not t.get("indirect") and re.search(r"Vec::<T, A>::(append|extend\w*)$|Extend<.*>::extend$", t["callee"])
+                   and t["args"] and t["args"][0]["k"] in ("copy", "move") and RAW in cl.locals[t["args"][0]["pl"]["l"]]["ty"]]
+        total, partial = [], []
+        for bi, t in cl.calls():
+            if t.get("indirect") or not SORT.search(t["callee"]) or not t["args"] or t["args"][0]["k"] not in ("copy", "move"):
+                continue
+            if RAW not in cl.locals[t["args"][0]["pl"]["l"]]["ty"] or depth(bi) > 0:
+                continue
+            is_total = True
+            why = "sort() by the elements' own order"
+            for a in t["args"][1:]:
+                ck = cl.locals[a["pl"]["l"]].get("closure") if a["k"] in ("copy", "move") else None
+                if ck and ck in F.funcs:
+                    cmps = [t2["callee"] for _, t2 in F.funcs[ck].calls() if not t2.get("indirect") and re.search(r"::(cmp|partial_cmp|then|then_with)$", t2["callee"])]
+                    whole = [c for c in cmps if re.search(r"for \(|%s" % RAW, c)]
+                    ret = F.funcs[ck].locals[0]["ty"]
+                    if t["callee"].endswith("_by_key") or t["callee"].endswith("by_cached_key"):
+                        is_total = ret.startswith("(") and "," in ret
+                        why = "key type %s" % ret
+                    else:
+                        is_total = bool(whole) or len(cmps) >= 2
+                        why = "comparator calls %s" % [c.rsplit("for ", 1)[-1][:40] for c in cmps]
+            (total if is_total else partial).append((bi, t, why))
         ok = False
-        for db, dt in drains:
-            v = strip_tags(ex.operand(dt["args"][0]))
-            for sb, st in sorts:
-                if strip_tags(ex.operand(st["args"][0])) == v and g.dominates(sb, db) and not any(ab in g.reachable_from(sb) for ab, _ in appends):
-                    ok = True
-        rep.ob("C04-D3", "raw segments gathered from the per-worker buffers are sorted before they are classified", ok,
-               detail="%d sorts, %d drains" % (len(sorts), len(drains)), site="%s:%d" % (cl.file, cl.line_lo), key="C04-D3 | classify | sort before classification")
+        for sb, st, why in total:
+            if not any(gb in g.reachable_from(sb) and gb != sb for gb in gathers):
+                ok = True
+        rep.ob("C04-D3", "raw segments gathered from the per-worker buffers pass through one total sort (outside any loop, after the last gather) before they are classified", ok and bool(gathers),
+               detail="gathers: %d; total sorts: %s; partial-order sorts: %s" % (len(gathers), [w for _, _, w in total], [w for _, _, w in partial]),
+               site=site_of(cl, (partial or total)[0][1]) if (partial or total) else "%s:%d" % (cl.file, cl.line_lo), key="C04-D3 | classify | sort before classification")
     drs = F.funcs.get(pipeline.CORE + "ParallelFlushState::drain_results_sorted")
     if rep.floor("C04-D3", 1 if drs else 0, 1, "drain_results_sorted"):
         ex = Exprs(drs)
